@@ -220,33 +220,51 @@ impl<'a> Tokinizer<'a> {
             return;
         }
         
+        /* The expression starts after the assignment operator */
         for (token_index, token) in self.tokens.iter().enumerate() {
-            match token.deref() {
-                TokenType::Operator('=') | 
-                TokenType::Operator('(')=> {
-                    index = token_index as usize + 1;
-                    break;
-                },
-                _ => ()
-            };
+            if let TokenType::Operator('=') = token.deref() {
+                index = token_index as usize + 1;
+                break;
+            }
         }
 
         if index + 1 >= self.tokens.len() {
             return;
         }
 
-        if let TokenType::Operator('(') = self.tokens[index].deref() {
-            index += 1;
+        let expression_start = index;
+
+        /* Skip all opening parentheses to find the first operand */
+        while index + 1 < self.tokens.len() {
+            match self.tokens[index].deref() {
+                TokenType::Operator('(') => index += 1,
+                _ => break
+            };
+        }
+
+        if let TokenType::Operator(operator) = self.tokens[index].deref() {
+            if *operator != '(' && *operator != ')' {
+                self.tokens.insert(index, Rc::new(TokenType::Number(0.0, NumberType::Decimal)));
+            }
         }
 
         let mut operator_required = false;
-
-        if let TokenType::Operator(_) = self.tokens[index].deref() {
-            self.tokens.insert(index, Rc::new(TokenType::Number(0.0, NumberType::Decimal)));
-        }
+        index = expression_start;
 
         while index < self.tokens.len() {
             match self.tokens[index].deref() {
+                /* A closed group is an operand */
+                TokenType::Operator(')') => operator_required = true,
+
+                /* An opened group is an operand too */
+                TokenType::Operator('(') => {
+                    if operator_required {
+                        log::debug!("Added missing operator between two token");
+                        self.tokens.insert(index, Rc::new(TokenType::Operator('+')));
+                        index += 1;
+                    }
+                    operator_required = false;
+                },
                 TokenType::Operator(_) => operator_required = false,
                 _ => {
                     if operator_required {
